@@ -69,6 +69,18 @@ Proof.
 Qed.
 Print Assumptions C17_chunk_independent_any_two.
 
+(* For EVERY input, also beyond the limit: the token sequences (data, info,
+   masks, quote depths) of any two chunkings are prefixes of one another — they
+   can differ only in where bufio.ErrTooLong cuts them; a run that reaches
+   io.EOF has the longest sequence; two runs that reach io.EOF are equal. *)
+Theorem C17_chunk_independent_up_to_limit : forall input r1 d1 r2 d2 os1 e1 os2 e2,
+  decode input r1 d1 = (os1, e1) -> decode input r2 d2 = (os2, e2) ->
+  ((exists t, os1 = os2 ++ t) \/ (exists t, os2 = os1 ++ t)) /\
+  (e1 = EEOF -> exists t, os1 = os2 ++ t) /\
+  (e1 = EEOF -> e2 = EEOF -> os1 = os2).
+Proof. exact decode_any_two. Qed.
+Print Assumptions C17_chunk_independent_up_to_limit.
+
 (* The mechanism: once the split function has returned a token on a buffer, it
    returns the same token and reaches the same state on every extension of that
    buffer, at EOF or not; and a request for more data can be repeated. *)
